@@ -71,6 +71,22 @@ def check_case(ctx, case):
                 ctx.violation('formula', '%s model at (h=%r, t=%r): %r, documented combination of the marginals %r' % (
                     case['model'], h, t, got, want), case)
                 return
+    # the closure on a stack of N lag pairs (N = 1, 2, 3, 5; rows are (h, t)) = the per-pair values
+    with quiet():
+        single = [float(fm(np.array([h, t]))) for h, t in pts]
+        for N in (1, 2, 3, 5):
+            stack = np.array(pts[:N], dtype=float)
+            try:
+                got = np.asarray(fm(stack), float).ravel().tolist()
+            except Exception as e:
+                ctx.violation('formula-array', '%s model on %d stacked (h, t) pairs raises %s: %s' % (
+                    case['model'], N, type(e).__name__, str(e)[:100]), case)
+                return
+            ctx.count('stacked_lag_pairs')
+            if len(got) != N or not all_close(got, single[:N], rel=1e-12):
+                ctx.violation('formula-array', '%s model on %d stacked (h, t) pairs %r: %r, pair by pair %r' % (
+                    case['model'], N, stack.tolist(), got, single[:N]), case)
+                return
     if not rec:
         return   # no free parameter (sum / product with fixed sills): nothing is fitted
     call = rec[-1]
@@ -107,7 +123,7 @@ def check_case(ctx, case):
 
 
 def run(ctx):
-    for k in range(ctx.n(50, 400)):
+    for k in range(ctx.n(100, 600)):
         case = c14.gen(ctx)
         case['estimator'] = 'matheron'
         case['model'] = str(ctx.rng.choice(['sum', 'product', 'product-sum', 'product-sum']))
